@@ -344,6 +344,7 @@ class MPD(Contract):
     qualname = "pyoma2.functions.gen.MPD"
     props = ("C18",)
     generic_replay = False
+    callable_modular = False
     bounded_driver = {"driver": "c18_indicators", "inputs": {}}
     compare_state = False
 
